@@ -5,6 +5,7 @@ import (
 	"fmt"
 	"math"
 	"strconv"
+	"strings"
 	"unsafe"
 
 	"github.com/arnodel/golua/lib/base"
@@ -238,8 +239,52 @@ func quote(v rt.Value) (string, bool) {
 	case rt.BoolType:
 		return strconv.FormatBool(v.AsBool()), true
 	case rt.StringType:
-		return strconv.Quote(v.AsString()), true // An approximation
+		return quoteString(v.AsString()), true
 	default:
 		return "", false
 	}
+}
+
+// quoteString returns s as a double-quoted Lua string literal that reads back
+// as exactly the bytes of s.  The quote, the backslash and the control
+// characters that have a name are backslash-escaped, the other control
+// characters are written as decimal escapes (with three digits when a digit
+// follows) and every other byte, in particular any byte >= 0x80, is copied.
+func quoteString(s string) string {
+	var b strings.Builder
+	b.Grow(len(s) + 2)
+	b.WriteByte('"')
+	for i := 0; i < len(s); i++ {
+		c := s[i]
+		switch c {
+		case '"', '\\':
+			b.WriteByte('\\')
+			b.WriteByte(c)
+		case '\a':
+			b.WriteString(`\a`)
+		case '\b':
+			b.WriteString(`\b`)
+		case '\f':
+			b.WriteString(`\f`)
+		case '\n':
+			b.WriteString(`\n`)
+		case '\r':
+			b.WriteString(`\r`)
+		case '\t':
+			b.WriteString(`\t`)
+		case '\v':
+			b.WriteString(`\v`)
+		default:
+			switch {
+			case c >= ' ' && c != 0x7f:
+				b.WriteByte(c)
+			case i+1 < len(s) && s[i+1] >= '0' && s[i+1] <= '9':
+				fmt.Fprintf(&b, `\%03d`, c)
+			default:
+				fmt.Fprintf(&b, `\%d`, c)
+			}
+		}
+	}
+	b.WriteByte('"')
+	return b.String()
 }
